@@ -1,5 +1,2 @@
--- root of the `MirosModel` library
-import MirosModel.Hsm.Model
-import MirosModel.Hsm.Spec
-import MirosModel.Gen.Constants
+-- root of the MirosModel library (the property modules are built by name: see MANIFEST.setup_cmd)
 import MirosModel.Drive.All
